@@ -400,6 +400,7 @@ inline int run(int argc, char** argv, Config cfg, Property prop) {
             } else {
                 Ctx c2; c2.prop = cfg.prop; c2.msg = lastMsg; c2.desc.str(lastDesc);
                 std::string p = saveFailure(cfg, lastFail, c2, "unreproducible");
+                { std::string q = p + ".notreplayed"; rename(p.c_str(), q.c_str()); p = q; }   // never part of the regression tier
                 st.notes.push_back("unreproducible failure (" + std::to_string(fails) + "/3 replays failed): " + lastMsg + " tape=" + p);
                 printf("UNREPRODUCIBLE property=%s tape=%s fails=%d/3 msg=%s\n", cfg.prop.c_str(), p.c_str(), fails, lastMsg.c_str());
             }
